@@ -145,7 +145,7 @@ def tasks(tier):
     # runs, or after the call has ended (DESIGN 11.8)
     for init, e in itertools.product(BRK, ["Policy.call", "Policy.execute", "RetryPolicy.call"]):
         cfg = dict(M=2, alphabet=["ok", "x:T", "r:T"] if tier == "thorough" else ["ok", "x:T"],
-                   breaker=BRK[init], attempt_timeout=1, durs=[0, 10], real_executor=True,
+                   breaker=BRK[init], attempt_timeout=2, durs=[0, 10], real_executor=True,
                    late_menu=["ok", "x:T"], max_unknown=None, handler="call", handler_menu=["SLEEP"],
                    sleeper="call")
         out.append({"family": "endings-late-attempt", "cfg": cfg, "entry": e, "bound": 1,
